@@ -40,6 +40,13 @@ MAP = {
                       "failed_or_cancelled_stores_nothing", "conc_quiesces_to_seq", "conc_quiesces_to_seq_reachable"])],
  "C15": [("Decorator", ["call_projection", "call_projection_general", "cancelled_in_enter", "cancelled_in_body", "fresh_generators", "one_generator_per_call",
                        "projection_independent", "actions_commute", "sequential_calls", "sequential_calls_generator_based"])],
+ "C12": [("CachedProperty", ["values_genuine", "lock_discipline", "failed_or_cancelled_caches_nothing", "computes_once_per_deletion", "computes_once",
+                            "all_results_equal", "getter_mutex", "value_stable", "served_from_cache", "getter_runs_iff_not_cached",
+                            "seq_recompute_after_del", "computes_once_nolock_refuted"])],
+ "C07": [("Borrow", ["borrow_never_closes", "u_closed_counts", "only_exit_changes_closed", "delivered_always", "delivered_prefix_general", "owner_gets_next",
+                    "closed_handle_is_dead", "reborrowed_from_closed_is_dead", "reborrowed_send_is_dead_refuted"])],
+ "C08": [("Borrow", ["scope_keeps_alive", "close_on_scoped_is_noop", "outermost_exit_closes_once", "inner_exit_closes_only_itself",
+                    "inner_exit_on_borrowed_closes_it_not_U", "neutral_context", "neutral_context_enter", "delivered_always"])],
  "C06": [("RegularTools", ["fault_transparent", "fault_outcome", "fault_prefix", "run_tool_regular"])],
  "C18": [("RegularTools", ["fault_transparent", "run_tool_regular"]), ("ReleaseAll", ["tool_releases", "tool_releases_closed"])],
 }
@@ -58,7 +65,7 @@ MODELS = {"C01": CALC, "C02": CALC, "C04": CALC, "C05": CALC, "C06": CALC, "C18"
           "C14": "Require Import V.Model.ExitStack.\n", "C15": "Require Import V.Model.Decorator.\n", "C16": "Require Import V.Model.GroupBy.\n"}
 def statement(mod, name):
     src = open(os.path.join(COQ, "Proofs", mod + ".v")).read()
-    m = re.search(r"^(Theorem|Corollary|Lemma)\s+%s\b(.*?)\n\s*Proof\." % re.escape(name), src, flags=re.S | re.M)
+    m = re.search(r"^(Theorem|Corollary|Lemma|Example|Fact)\s+%s\b(.*?)\n\s*Proof\." % re.escape(name), src, flags=re.S | re.M)
     if not m:
         raise SystemExit("statement of %s not found in %s" % (name, mod))
     return m.group(2).rstrip()
